@@ -356,12 +356,15 @@ def ra_check(pid, tier, replay, want, extra_docs, rule, assumptions):
     if replay:
         vecs = json.load(open(replay))["vectors"]
     else:
-        if extra_docs:
-            # specification-level theorem: Accept(doc) => Encodable(BuildRA(Elab(doc), sys)) etc. (ConfigMC)
+        if True:
+            # specification-level theorem: Accept(doc) => Encodable(BuildRA(Elab(doc), sys)) etc. (ConfigMC), and the PREF64
+            # lifetime lemma over every accepted MaxRtrAdvInterval in milliseconds (an ASSUME, evaluated once)
             cfgp = os.path.join(tmp, "ConfigMC.cfg")
-            open(cfgp, "w").write("SPECIFICATION MSpec\nINVARIANTS Theorem\nCHECK_DEADLOCK FALSE\n")
+            stride = 1 if tier == "thorough" else 37
+            open(cfgp, "w").write("SPECIFICATION MSpec\nCONSTANT P64Stride = %d\nINVARIANTS Theorem\nCHECK_DEADLOCK FALSE\n" % stride)
             r = vf.tlc("ConfigMC", cfgp, workdir=vf.mktmp("vf-cmc-"), timeout=1500, heap="8g")
-            mcs.append({"config": "ConfigMC: Accept => Encodable(BuildRA(Elab)) over boundary documents x system states",
+            mcs.append({"config": "ConfigMC: Accept => Encodable(BuildRA(Elab)) over boundary documents x system states; "
+                                  "Pref64Lemma over %d interval values" % ((1800000 - 4000) // stride + 1),
                         "states": r["states"], "transitions": r["generated"], "ok": r["ok"], "violation": r["violation"],
                         "wall_s": round(r["wall_s"], 1)})
             if not r["ok"]:
